@@ -495,3 +495,128 @@ theorem pearsonSq_affine (a b : Rat) (ha : a ≠ 0) (xs ys : List Rat) (h : xs.l
             simp [hcn, this]
 
 end MeasureLemmas
+
+namespace MeasureLemmas
+open Carve Measures
+
+/-! ## χ² of a contingency table: the order of the rows, the order of the data rows and the names of the categories do not matter -/
+
+theorem sumR_perm {l l' : List Rat} (h : l.Perm l') : sumR l = sumR l' := by
+  induction h with
+  | nil => rfl
+  | cons a _ ih => simp only [sumR_cons, ih]
+  | swap a b l => simp only [sumR_cons]; grind
+  | trans _ _ ih1 ih2 => rw [ih1, ih2]
+
+theorem natfoldl_perm {l l' : List Nat} (h : l.Perm l') : l.foldl (· + ·) 0 = l'.foldl (· + ·) 0 := by
+  induction h with
+  | nil => rfl
+  | cons a _ ih => simp only [List.foldl_cons]; rw [natfoldl_add, natfoldl_add (a := 0 + a), ih]
+  | swap a b l => simp only [List.foldl_cons]; rw [natfoldl_add, natfoldl_add (a := 0 + a + b)]; omega
+  | trans _ _ ih1 ih2 => rw [ih1, ih2]
+
+theorem maxfoldl_init (l : List Nat) (a : Nat) : l.foldl max a = max a (l.foldl max 0) := by
+  induction l generalizing a with
+  | nil => simp
+  | cons x t ih =>
+    simp only [List.foldl_cons]
+    rw [ih (max a x), ih (max 0 x)]
+    omega
+
+theorem maxfoldl_perm {l l' : List Nat} (h : l.Perm l') : l.foldl max 0 = l'.foldl max 0 := by
+  induction h with
+  | nil => rfl
+  | cons a _ ih => simp only [List.foldl_cons]; rw [maxfoldl_init, maxfoldl_init (a := max 0 a), ih]
+  | swap a b l => simp only [List.foldl_cons]; rw [maxfoldl_init, maxfoldl_init (a := max (max 0 a) b)]; omega
+  | trans _ _ ih1 ih2 => rw [ih1, ih2]
+
+/-- **χ² does not depend on the order of the rows of the contingency table** (the order in which
+    the categories of the feature are listed). -/
+theorem chi2Table_perm {t t' : List (List Nat)} (h : t.Perm t') : chi2Table t = chi2Table t' := by
+  unfold chi2Table
+  have hrow : (t.map (fun r => ((r.foldl (· + ·) 0 : Nat) : Rat))).Perm (t'.map (fun r => ((r.foldl (· + ·) 0 : Nat) : Rat))) :=
+    h.map _
+  have hn : sumR (t.map (fun r => ((r.foldl (· + ·) 0 : Nat) : Rat))) = sumR (t'.map (fun r => ((r.foldl (· + ·) 0 : Nat) : Rat))) :=
+    sumR_perm hrow
+  have hnc : (t.map List.length).foldl max 0 = (t'.map List.length).foldl max 0 := maxfoldl_perm (h.map _)
+  have hcol : ∀ j, ((t.map (fun r => r.getD j 0)).foldl (· + ·) 0 : Nat) = ((t'.map (fun r => r.getD j 0)).foldl (· + ·) 0 : Nat) :=
+    fun j => natfoldl_perm (h.map _)
+  have hlen : t.length = t'.length := h.length_eq
+  simp only [hn, hnc, hcol, hlen]
+  -- the cells are a permutation of each other
+  generalize hcolS : ((List.range ((t'.map List.length).foldl max 0)).map
+      (fun j => (((t'.map (fun r => r.getD j 0)).foldl (· + ·) 0 : Nat) : Rat))) = colS
+  generalize hN : sumR (t'.map (fun r => ((r.foldl (· + ·) 0 : Nat) : Rat))) = N
+  generalize hNC : (t'.map List.length).foldl max 0 = nc
+  have hzip : ∀ (u : List (List Nat)), u.zip (u.map (fun r => ((r.foldl (· + ·) 0 : Nat) : Rat))) =
+      u.map (fun r => (r, ((r.foldl (· + ·) 0 : Nat) : Rat))) := by
+    intro u
+    induction u with
+    | nil => rfl
+    | cons a t ih => simp only [List.map_cons, List.zip_cons_cons, ih]
+  rw [hzip t, hzip t']
+  have hcells : ((t.map (fun r => (r, ((r.foldl (· + ·) 0 : Nat) : Rat)))).flatMap (fun rr =>
+        (List.range nc).map (fun j => (((rr.1.getD j 0 : Nat) : Rat), rr.2 * colS.getD j 0 / N)))).Perm
+      ((t'.map (fun r => (r, ((r.foldl (· + ·) 0 : Nat) : Rat)))).flatMap (fun rr =>
+        (List.range nc).map (fun j => (((rr.1.getD j 0 : Nat) : Rat), rr.2 * colS.getD j 0 / N)))) :=
+    (h.map _).flatMap_right _
+  by_cases hz : (N == 0) = true
+  · simp [hz]
+  · simp only [hz, Bool.false_eq_true, if_false]
+    have hany := hcells.any_eq (f := fun c => c.2 == 0)
+    rw [hany]
+    split
+    · rfl
+    · congr 1
+      exact sumR_perm (hcells.map _)
+
+theorem count_pairs_perm {ps ps' : List (String × String)} (h : ps.Perm ps') (a b : String) :
+    (ps.filter (fun p => p.1 == a && p.2 == b)).length = (ps'.filter (fun p => p.1 == a && p.2 == b)).length :=
+  (h.filter _).length_eq
+
+/-- **Permuting the rows of the data leaves the contingency table unchanged.** -/
+theorem contingency_perm_rows (xs ys xs' ys' : List String) (h : (xs.zip ys).Perm (xs'.zip ys')) (cats cls : List String) :
+    contingency xs ys cats cls = contingency xs' ys' cats cls := by
+  unfold contingency
+  apply List.map_congr_left
+  intro a _
+  apply List.map_congr_left
+  intro b _
+  exact count_pairs_perm h a b
+
+theorem zip_map_left_inj (ρ : String → String) : ∀ (xs ys : List String),
+    (xs.map ρ).zip ys = (xs.zip ys).map (fun p => (ρ p.1, p.2)) := by
+  intro xs
+  induction xs with
+  | nil => intro ys; rfl
+  | cons a t ih =>
+    intro ys
+    cases ys with
+    | nil => rfl
+    | cons b u => simp only [List.map_cons, List.zip_cons_cons, ih]
+
+/-- **Renaming the categories by an injective map leaves the contingency table unchanged** (rows
+    listed in the renamed order). -/
+theorem contingency_rename (ρ : String → String) (hρ : ∀ a b, ρ a = ρ b → a = b) (xs ys cats cls : List String) :
+    contingency (xs.map ρ) ys (cats.map ρ) cls = contingency xs ys cats cls := by
+  unfold contingency
+  rw [List.map_map]
+  apply List.map_congr_left
+  intro a _
+  apply List.map_congr_left
+  intro b _
+  rw [zip_map_left_inj, List.filter_map, List.length_map]
+  congr 1
+  apply List.filter_congr
+  intro p _
+  show ((ρ p.1 == ρ a) && (p.2 == b)) = ((p.1 == a) && (p.2 == b))
+  have key : (ρ p.1 == ρ a) = (p.1 == a) := by
+    by_cases e : p.1 = a
+    · rw [e, beq_self_eq_true, beq_self_eq_true]
+    · have hne : ¬ ρ p.1 = ρ a := fun h => e (hρ _ _ h)
+      have h1 : (ρ p.1 == ρ a) = false := beq_eq_false_iff_ne.2 hne
+      have h2 : (p.1 == a) = false := beq_eq_false_iff_ne.2 e
+      rw [h1, h2]
+  rw [key]
+
+end MeasureLemmas
